@@ -118,7 +118,13 @@ func (g *verifTypeGen) gen(depth int) types.Type {
 	}
 	errT := types.Universe.Lookup("error").Type()
 	var embeds []types.Type
-	switch vp.Choose(g.name("iemb"), 5) {
+	iemb := 0
+	if vp.Thorough() {
+		iemb = []int{0, 2, 3}[vp.Choose(g.name("iemb"), 3)] // depth 2 multiplies the space: three variants
+	} else {
+		iemb = vp.Choose(g.name("iemb"), 5)
+	}
+	switch iemb {
 	case 1:
 		embeds = []types.Type{errT}
 	case 2:
